@@ -146,14 +146,28 @@ def _brk_eof_swallowed_ok():
     m.RunningTask.get_result = get_result
 
 
-def _brk_no_restart_limit_blocking():
-    """`get_result` joins the dead worker's successor without a time budget: restarts with the ORIGINAL search time."""
+def _brk_short_crashes_free():
+    """`_adjust_search_time_after_crash` ignores crashes that took less than a second ("nothing was consumed")."""
     import pynguin.master_worker.master as m
 
     def _adjust_search_time_after_crash(self, elapsed_time):
         current = self._task.configuration.stopping.maximum_search_time
         if current > 0 and elapsed_time >= 1.0:  # seeded: "short" crashes are free
             self._task.configuration.stopping.maximum_search_time = int(max(current - elapsed_time, 0.0))
+
+    m.RunningTask._adjust_search_time_after_crash = _adjust_search_time_after_crash
+
+
+def _brk_adjust_undercounts():
+    """`_adjust_search_time_after_crash` subtracts only a quarter of the elapsed time (unit mix-up): every restart still
+    reduces the account, but restarts go on after the wall clock has used up the budget."""
+    import pynguin.master_worker.master as m
+
+    def _adjust_search_time_after_crash(self, elapsed_time):
+        current = self._task.configuration.stopping.maximum_search_time
+        if current > 0:
+            remaining = max(current - elapsed_time / 4, 0.0)  # seeded
+            self._task.configuration.stopping.maximum_search_time = int(remaining)
 
     m.RunningTask._adjust_search_time_after_crash = _adjust_search_time_after_crash
 
@@ -165,7 +179,8 @@ BREAKS = {
     "restart-zero-off-by-one": _brk_restart_zero_check_off_by_one,
     "client-none-is-ok": _brk_client_none_is_ok,
     "eof-swallowed-ok": _brk_eof_swallowed_ok,
-    "short-crashes-free": _brk_no_restart_limit_blocking,
+    "short-crashes-free": _brk_short_crashes_free,
+    "adjust-undercounts": _brk_adjust_undercounts,
 }
 
 
